@@ -268,11 +268,23 @@ def _arg_term(interp, v):
         return f(*ts) if ts else z3.Const("empty_dict", OBJ)
     if isinstance(v, VList) and getattr(v, "term", None) is not None:
         return v.term
+    if isinstance(v, VList) and getattr(v, "sid", None) is not None:
+        return z3.Const(f"seq:{v.sid}:{v.kind}", OBJ)
+    if isinstance(v, VObj) and getattr(v, "sid", None) is not None and v.term is None:
+        return z3.Const(f"frame:{v.sid}", OBJ)
+    if isinstance(v, VObj) and v.attrs.get("__repo_instance__") and v.term is None:
+        if not hasattr(v, "_id_term"):
+            _INST[0] += 1
+            v._id_term = z3.Const(f"inst:{v.tag}:{_INST[0]}", OBJ)
+        return v._id_term
     if isinstance(v, VList) and hasattr(v, "as_obj"):
         return v.as_obj
     if isinstance(v, VList) and isinstance(v.content, SymSeq) and getattr(v, "origin_term", None) is not None:
         return v.origin_term
     raise Unsupported(f"value {v!r} cannot be passed to an opaque library function")
+
+
+_INST = [0]
 
 
 def opaque(interp, fname, args, kwargs=None, tag="object", rsort=None):
@@ -1089,3 +1101,8 @@ def _pool_map(interp, sv, args, kwargs, node):
     interp.ctx.oblige(f"{short}/order[globals assigned before Pool()]@L{line}", z3.BoolVal(not stale), kind="order", line=line,
                       detail=f"module globals written after the pool was created: {stale}")
     return BUILTINS["list"](interp, [BUILTINS["map"](interp, [f, it], {}, node)], {}, node)
+
+
+@builtin("super")
+def _super(interp, args, kwargs, node):
+    return interp.super_proxy(node)
